@@ -111,3 +111,25 @@ Definition dup_live_run : list label :=
 Definition rej_env : env := {| e_start := 0; e_code := 0; e_dest := -1; e_mode := 0 |}.
 Definition close_vs_reject_run : list label :=
   [LArrive 0 dup_req rej_env; LStep (TR 0) true; LStep (TR 0) true; LClose 0] ++ repeat (LStep (TR 0) true) 6.
+
+(* ---------------------------------------------------------------- finishRelayItem's identity check
+
+   In fresh-id schedules the check of relayItems.deleteCall never fails for a finish that is
+   about to run (invariant LInv of Proofs/RelayTimerP.v, preserved by EVERY step): whatever item
+   is under the key has the destination relayer and the destination-side id the frame path looked
+   up.  finishRelayItem is there the Delete it was before the fix. *)
+Theorem finish_is_delete : forall cf ls st th t lk rest, run_fresh cf init ls = Some st ->
+  lookup tid_eqb th (threads st) = Some (IDelete t lk :: rest) ->
+  items_delete_call st t lk = items_delete st t.
+Proof.
+  intros cf ls st th t lk rest H Hl. destruct (reach_three cf ls st H) as (_&_&HL).
+  eapply LInv_delete_is_delete; eassumption.
+Qed.
+
+(* an item of ANOTHER call under the id is left alone, with its timer and the counters *)
+Theorem finish_leaves_other_call : forall cf st t lk it room,
+  lookup key_eqb t (items st) = Some it -> (it_dest it =? fst lk) && (it_remap it =? snd lk) = false ->
+  exec cf st (IDelete t lk) room = (st, []).
+Proof.
+  intros cf st t lk it room Hl Hm. cbn [exec]. unfold items_delete_call. rewrite Hl, Hm. reflexivity.
+Qed.
